@@ -27,6 +27,9 @@ RENDER_BUDGET = 3_000_000
 CPU_CAP_S = 20.0
 
 
+FLAGS = {"logical_not_operator": True, "logical_parentheses": True, "ternary_expressions": True}
+
+
 class Budget(BaseException):
     """Raised by the tracer when the step budget is exhausted (a hang)."""
 
@@ -164,7 +167,7 @@ def evaluate(case) -> Verdict:
     kind = case["kind"]
     if kind == "parse":
         src = case["src"]
-        env = envs.make_env({"mode": case.get("mode", "strict"), "extra": True, "twice": False})
+        env = envs.make_env({"mode": case.get("mode", "strict"), "extra": True, "twice": False, "flags": FLAGS})
         o, steps, cpu = run_traced(lambda: env.from_string(src), PARSE_BUDGET(len(src)))
         if o[0] == "budget":
             v.fail("parse:step-budget", f"parsing {len(src)} characters did not finish within {PARSE_BUDGET(len(src))} line events: {src[:120]!r}...")
